@@ -92,6 +92,15 @@ SnapAct ==
   /\ snaps' = Append(snaps, [snap |-> Snapshot(s), eproj |-> s.eproj])
   /\ hist' = Append(hist, [ev |-> "snap", h |-> Len(snaps) + 1, snap |-> SnapArrOf(Snapshot(s))])
   /\ UNCHANGED <<c, s>>
+\* a snapshot the host wrote by hand joins the snapshots that can be restored (at most one per behaviour)
+IsSnapHand(h) == h.ev = "snaphand"
+SnapHandAct ==
+  /\ ~IsOos /\ MaxRestores > 0 /\ Len(snaps) < MaxSnaps /\ NCalls < MaxCalls /\ SelectSeq(hist, IsSnapHand) = <<>>
+  /\ \E i \in DOMAIN P.nodes :
+       LET t == P.nodes[i].title  sn == HandSnap(P, t) IN
+       /\ snaps' = Append(snaps, [snap |-> sn, eproj |-> EntryProj(P, t, sn.vars, sn.visits)])
+       /\ hist' = Append(hist, [ev |-> "snaphand", h |-> Len(snaps) + 1, node |-> t])
+  /\ UNCHANGED <<c, s>>
 RestoreAct ==
   /\ ~IsOos /\ NRestores < MaxRestores /\ NCalls < MaxCalls
   /\ \E h \in DOMAIN snaps :
@@ -110,7 +119,7 @@ RebindAct ==
        /\ hist' = Append(hist, [ev |-> "rebind", what |-> b.what, name |-> b.name, kind |-> b.kind])
   /\ UNCHANGED <<c, snaps>>
 
-Next == CallAct \/ HostAct \/ SnapAct \/ RestoreAct \/ RebindAct
+Next == CallAct \/ HostAct \/ SnapAct \/ SnapHandAct \/ RestoreAct \/ RebindAct
 Spec == Init /\ [][Next]_vars
 
 \* ------------------------------------------------------ C01: refinement of Sem
